@@ -424,6 +424,65 @@ func checkC14(r *core.Run) {
 			r.Check(strings.Contains(id, ".Inc(recv=") && strings.Contains(id, ".idGenerator"), "C14.ids", core.ShortKey(f.Obj)+" : ID of a waited-for message comes from the client's atomic counter", w.Pos(cs.Call.Pos()), id, "the ID of a message sent with a waiter derives from "+id+", not from the client's atomic id counter")
 		}
 	}
+	// the request-id counter only ever counts up: a Store / Swap / reset while requests are pending makes a later
+	// request draw the id of a pending one, whose future it then replaces in the table
+	{
+		n := 0
+		for _, f := range w.SortedFuncs() {
+			if w.IsTestFile(f.Decl.Pos()) || !strings.HasSuffix(f.Pkg.PkgPath, "/pkg/remoting/getty") || f.Decl.Body == nil {
+				continue
+			}
+			info := f.Pkg.TypesInfo
+			var stack []ast.Node
+			ast.Inspect(f.Decl.Body, func(x ast.Node) bool {
+				if x == nil {
+					stack = stack[:len(stack)-1]
+					return true
+				}
+				stack = append(stack, x)
+				sel, ok := x.(*ast.SelectorExpr)
+				if !ok || sel.Sel.Name != "idGenerator" {
+					return true
+				}
+				fv, ok := info.Uses[sel.Sel].(*types.Var)
+				if !ok || !fv.IsField() {
+					return true
+				}
+				owner := ""
+				if t := info.TypeOf(sel.X); t != nil {
+					owner = t.String()
+				}
+				if !strings.HasSuffix(owner, "GettyRemotingClient") {
+					return true
+				}
+				n++
+				r.Sites++
+				use := "read"
+				okUse := true
+				if len(stack) >= 3 {
+					if ms, ok := stack[len(stack)-2].(*ast.SelectorExpr); ok {
+						if _, isCall := stack[len(stack)-3].(*ast.CallExpr); isCall {
+							use = ms.Sel.Name
+							okUse = inSet(use, "Inc", "Load", "Add")
+						}
+					}
+					if as, ok := stack[len(stack)-2].(*ast.AssignStmt); ok {
+						for _, l := range as.Lhs {
+							if ast.Unparen(l) == ast.Expr(sel) {
+								use, okUse = "assignment", false
+							}
+						}
+					}
+				}
+				r.Check(okUse, "C14.ids", core.ShortKey(f.Obj)+" : the request-id counter only counts up ("+use+")", w.Pos(sel.Pos()), "Inc / Load only",
+					"the request-id counter is changed with '"+use+"' here: ids are shared by every session of the client, so after a reset a new request draws the id of a request still pending and replaces its future — the older caller times out and the newer one receives the older caller's reply")
+				return true
+			})
+		}
+		if n == 0 {
+			r.Bad("C14.ids", "uses of the request-id counter", "", "no use of GettyRemotingClient.idGenerator found")
+		}
+	}
 	r.Sites++
 	r.Check(len(counters) == 1 && nWaited >= 2, "C14.ids", "all waited-for messages share one id counter", "", keysOf(counters), "messages sent with a waiter take their ids from different sources {"+keysOf(counters)+"}: two in-flight requests can carry the same id and receive each other's reply")
 	// ---- who may remove a pending future: the waiter's timeout arm, the failed write in the send, and a
